@@ -2639,3 +2639,620 @@ func ruleR173(c *Ctx) {
 		c.Missing("SetTextPayload users", "no call of SetTextPayload outside the accessors was found in the schema package")
 	}
 }
+
+// ---- R174 ----
+
+func init() {
+	register(&Rule{ID: "R174", Title: "a boundary listener can be armed again: the flows that wait at an activity's boundary events are not started exclusively under the activity's once-only guard (a non-interrupting event has to be caught once per event)", Min: 1, Run: ruleR174})
+}
+
+func ruleR174(c *Ctx) {
+	p := c.P
+	what := "the token that waits at a boundary catch event leaves it when the event fires. For a non-interrupting boundary event the activity goes on and the next event has to be caught as well — that needs a new token at the catch event. If listener flows are only ever started inside the harness's sync.Once, the second event while the activity is still active finds nobody listening"
+	n := 0
+	doneT := map[*types.Named]bool{}
+	for _, f := range p.Funcs {
+		if f.Body == nil || f.Pkg.PkgPath != pathBpmn {
+			continue
+		}
+		r := f.Root()
+		if r.Obj == nil || recvNamed(r.Obj) == nil {
+			continue
+		}
+		T := recvNamed(r.Obj)
+		st, ok := T.Underlying().(*types.Struct)
+		if !ok {
+			continue
+		}
+		// the list of listener flows: a slice-of-flows field of a type that also embeds an Activity
+		var flowsField *types.Var
+		for i := 0; i < st.NumFields(); i++ {
+			if sl, isSl := st.Field(i).Type().Underlying().(*types.Slice); isSl {
+				if n := namedOf(sl.Elem()); n != nil && n.Obj().Name() == "flow" && n.Obj().Pkg() != nil && n.Obj().Pkg().Path() == pathBpmn {
+					flowsField = st.Field(i)
+				}
+			}
+		}
+		if flowsField == nil || f != r || doneT[T] {
+			continue
+		}
+		doneT[T] = true
+		// all Start calls on elements of that field, in the methods of T (closures included)
+		type site struct {
+			f    *FuncInfo
+			at   *ast.CallExpr
+			once bool
+		}
+		var sites []site
+		for _, h := range p.Funcs {
+			if h.Body == nil || h.Root().Obj == nil || recvNamed(h.Root().Obj) != T {
+				continue
+			}
+			hin := info(h)
+			inspectNoLit(h.Body, func(m ast.Node) bool {
+				cl, ok := m.(*ast.CallExpr)
+				if !ok {
+					return true
+				}
+				fn := callee(hin, cl)
+				if fn == nil || fn.Name() != "Start" || recvNamed(fn) == nil || recvNamed(fn).Obj().Name() != "flow" {
+					return true
+				}
+				se, _ := unparen(cl.Fun).(*ast.SelectorExpr)
+				if se == nil {
+					return true
+				}
+				from := false
+				if mentionsDeep(se.X, func(z ast.Node) bool { s2, ok := z.(*ast.SelectorExpr); return ok && fieldOf(hin, s2) == flowsField }) {
+					from = true
+				} else if id, isId := unparen(se.X).(*ast.Ident); isId {
+					if o := objOf(hin, id); o != nil {
+						defs, _ := localDefs(hin, h.Root().Body, o)
+						for _, d := range defs {
+							if mentionsDeep(d, func(z ast.Node) bool { s2, ok := z.(*ast.SelectorExpr); return ok && fieldOf(hin, s2) == flowsField }) {
+								from = true
+							}
+						}
+						// range variable over the field
+						ast.Inspect(h.Root().Body, func(z ast.Node) bool {
+							if rs, ok := z.(*ast.RangeStmt); ok && fieldOf(hin, rs.X) == flowsField {
+								if vid, ok := rs.Value.(*ast.Ident); ok && objOf(hin, vid) == o {
+									from = true
+								}
+							}
+							return true
+						})
+					}
+				}
+				if !from {
+					return true
+				}
+				once := false
+				for cur := h; cur != nil && cur.Lit != nil; cur = cur.Parent {
+					if pc, ok := p.Parent(cur.Lit).(*ast.CallExpr); ok && cur.Parent != nil && isSyncMethod(info(cur.Parent), pc, "Once", "Do") {
+						once = true
+					}
+				}
+				sites = append(sites, site{h, cl, once})
+				return true
+			})
+		}
+		if len(sites) == 0 {
+			continue
+		}
+		n++
+		allOnce := true
+		for _, s := range sites {
+			if !s.once {
+				allOnce = false
+			}
+		}
+		c.Check(!allOnce, sites[0].f, sites[0].at, "start of the boundary listener flows of "+T.Obj().Name(), what, ifElse(allOnce, fmt.Sprintf("%d start site(s), all inside sync.Once.Do: a listener is armed once per activity object", len(sites)), "a start site outside the once-only guard exists"))
+	}
+	if n == 0 {
+		c.Missing("boundary listener starts", "no type that keeps a list of listener flows and starts them was found")
+	}
+}
+
+// ---- R175 (round 8) ----
+
+func init() {
+	register(&Rule{ID: "R175", Title: "sibling lookups agree: in a type that keeps tables in pairs X / XByName, a method named …ByName reads only the ByName member of each pair (and every one whose plain member the …ById twin reads); a …ById method reads only the plain members", Min: 2, Run: ruleR175})
+}
+
+func ruleR175(c *Ctx) {
+	p := c.P
+	what := "ids and names are both strings, so indexing the by-id table with a name compiles; a data object reference that is looked up by name in the by-id table is never found, and the data output of a task is stored in a stray container instead of the object later conditions and tasks read"
+	n := 0
+	for _, f := range p.Funcs {
+		if f.Body == nil || f.Obj == nil || f.Pkg.PkgPath != pathData || f.Parent != nil {
+			continue
+		}
+		T := recvNamed(f.Obj)
+		if T == nil {
+			continue
+		}
+		st, ok := T.Underlying().(*types.Struct)
+		if !ok {
+			continue
+		}
+		byName := map[*types.Var]*types.Var{} // plain -> ByName
+		plainOf := map[*types.Var]*types.Var{}
+		fields := map[string]*types.Var{}
+		for i := 0; i < st.NumFields(); i++ {
+			fields[st.Field(i).Name()] = st.Field(i)
+		}
+		for nm, fv := range fields {
+			if bn := fields[nm+"ByName"]; bn != nil {
+				byName[fv] = bn
+				plainOf[bn] = fv
+			}
+		}
+		if len(byName) == 0 {
+			continue
+		}
+		name := f.Obj.Name()
+		isByName, isById := strings.HasSuffix(name, "ByName"), strings.HasSuffix(name, "ById")
+		if !isByName && !isById {
+			continue
+		}
+		reads := func(h *FuncInfo) map[*types.Var]bool {
+			out := map[*types.Var]bool{}
+			hin := info(h)
+			ast.Inspect(h.Body, func(m ast.Node) bool {
+				if se, ok := m.(*ast.SelectorExpr); ok {
+					if fv := fieldOf(hin, se); fv != nil {
+						out[fv] = true
+					}
+				}
+				return true
+			})
+			return out
+		}
+		mine := reads(f)
+		n++
+		var wrong, missing []string
+		for fv := range mine {
+			if isByName && byName[fv] != nil {
+				wrong = append(wrong, fv.Name())
+			}
+			if isById && plainOf[fv] != nil {
+				wrong = append(wrong, fv.Name())
+			}
+		}
+		// agreement with the twin
+		twinName := strings.TrimSuffix(strings.TrimSuffix(name, "ByName"), "ById")
+		if isByName {
+			twinName += "ById"
+		} else {
+			twinName += "ByName"
+		}
+		for _, h := range p.Funcs {
+			if h.Obj != nil && h.Body != nil && h.Parent == nil && h.Obj.Name() == twinName && recvNamed(h.Obj) == T {
+				for fv := range reads(h) {
+					var want *types.Var
+					if isByName {
+						want = byName[fv]
+					} else {
+						want = plainOf[fv]
+					}
+					if want != nil && !mine[want] {
+						missing = append(missing, want.Name())
+					}
+				}
+			}
+		}
+		sort.Strings(wrong)
+		sort.Strings(missing)
+		c.Check(len(wrong) == 0 && len(missing) == 0, f, f.Decl, f.QName()+" reads its own side of the table pairs", what, ifElse(len(wrong) == 0 && len(missing) == 0, "reads only its own side, and every table its twin reads", fmt.Sprintf("reads the other side's %v; does not read %v although %s reads the twin table", wrong, missing, twinName)))
+	}
+	if n == 0 {
+		c.Missing("paired tables", "no …ById / …ByName method on a type with X / XByName field pairs was found in pkg/data")
+	}
+}
+
+// ---- R176 (round 8, states F15's repaired shape) ----
+
+func init() {
+	register(&Rule{ID: "R176", Title: "an event relay is plugged in: every type that both consumes events and lets consumers register with it (a scope: process, sub-process, activity harness) is itself registered as a consumer of some event source", Min: 3, Run: ruleR176})
+}
+
+func ruleR176(c *Ctx) {
+	p := c.P
+	what := "the nodes of a scope register with the scope object and the scope forwards what it is handed (ConsumeEvent -> ForwardEvent). A scope that never registers with the source it is part of is never handed anything: the catch events inside it wait for ever for events the instance was given while they were listening"
+	n := 0
+	seen := map[*types.Named]bool{}
+	for _, f := range p.Funcs {
+		if f.Obj == nil || f.Pkg.PkgPath != pathBpmn || f.Obj.Name() != "RegisterEventConsumer" {
+			continue
+		}
+		T := recvNamed(f.Obj)
+		if T == nil || seen[T] {
+			continue
+		}
+		ms := types.NewMethodSet(types.NewPointer(T))
+		consumes := false
+		for i := 0; i < ms.Len(); i++ {
+			if ms.At(i).Obj().Name() == "ConsumeEvent" {
+				consumes = true
+			}
+		}
+		if !consumes {
+			continue
+		}
+		seen[T] = true
+		n++
+		var site ast.Node
+		var siteF *FuncInfo
+		for _, h := range p.Funcs {
+			if h.Body == nil || h.Pkg.PkgPath != pathBpmn || site != nil {
+				continue
+			}
+			hin := info(h)
+			inspectNoLit(h.Body, func(m ast.Node) bool {
+				cl, ok := m.(*ast.CallExpr)
+				if !ok || len(cl.Args) != 1 || site != nil {
+					return true
+				}
+				se, ok := unparen(cl.Fun).(*ast.SelectorExpr)
+				if !ok || se.Sel.Name != "RegisterEventConsumer" {
+					return true
+				}
+				if namedOf(hin.TypeOf(cl.Args[0])) == T {
+					// not with itself
+					if namedOf(hin.TypeOf(se.X)) != T {
+						site, siteF = cl, h
+					}
+				}
+				return true
+			})
+		}
+		wit := "never registered with an event source"
+		if site != nil {
+			wit = "registered at " + c.pos(site) + " (" + siteF.QName() + ")"
+		}
+		c.Check(site != nil, f, f.Decl, "event relay "+T.Obj().Name()+" is a consumer of its enclosing scope", what, wit)
+	}
+	if n == 0 {
+		c.Missing("event relays", "no type with both ConsumeEvent and RegisterEventConsumer was found")
+	}
+}
+
+// ---- R177, R178 (round 8) ----
+
+func init() {
+	register(&Rule{ID: "R177", Title: "sibling mailboxes: the mailbox of every flow node is made with room for at least two messages per incoming flow plus one (len(incoming)*k+c, k >= 2, c >= 1), as all its siblings are", Min: 10, Run: ruleR177})
+	register(&Rule{ID: "R178", Title: "every token is counted where completion is read: the wait group handed to newFlow is a flowWaitGroup field of the wiring, never a wait group made for the occasion", Min: 4, Run: ruleR178})
+}
+
+func ruleR177(c *Ctx) {
+	p := c.P
+	what := "a token posts its request into the node's mailbox with a plain send (NextAction). While the node's loop is not draining — it is being started, it is busy, or it has just left on cancellation — the posts of all tokens heading for the node must fit, or a token blocks in a send no cancellation can interrupt: its goroutine and its sender handle leak and the tracers never terminate"
+	n := 0
+	for _, f := range p.Funcs {
+		if f.Body == nil || f.Pkg.PkgPath != pathBpmn {
+			continue
+		}
+		in := info(f)
+		inspectNoLit(f.Body, func(m ast.Node) bool {
+			kv, ok := m.(*ast.KeyValueExpr)
+			if !ok {
+				return true
+			}
+			cl, ok := unparen(kv.Value).(*ast.CallExpr)
+			if !ok || !isBuiltin(in, cl, "make") || len(cl.Args) != 2 {
+				return true
+			}
+			if !isMailboxChan(in.TypeOf(cl.Args[0])) {
+				return true
+			}
+			// only flow nodes: the literal's type has a NextAction method
+			lit, _ := p.Parent(kv).(*ast.CompositeLit)
+			if lit == nil {
+				return true
+			}
+			T := namedOf(in.TypeOf(lit))
+			if T == nil {
+				return true
+			}
+			isNode := false
+			ms := types.NewMethodSet(types.NewPointer(T))
+			for i := 0; i < ms.Len(); i++ {
+				if ms.At(i).Obj().Name() == "NextAction" {
+					isNode = true
+				}
+			}
+			if !isNode {
+				return true
+			}
+			n++
+			// shape len(<incoming>)*k + c (possibly held in a local first)
+			good := false
+			capExpr := unparen(cl.Args[1])
+			if id, isId := capExpr.(*ast.Ident); isId {
+				if o := objOf(in, id); o != nil && isLocalVar(f.Root(), o) {
+					if defs, _ := localDefs(in, f.Root().Body, o); len(defs) == 1 {
+						capExpr = unparen(defs[0])
+					}
+				}
+			}
+			if add, ok := capExpr.(*ast.BinaryExpr); ok && add.Op == token.ADD {
+				cst := func(e ast.Expr) (int64, bool) {
+					if tv, has := in.Types[e]; has && tv.Value != nil {
+						var v int64
+						if _, err := fmt.Sscan(tv.Value.String(), &v); err == nil {
+							return v, true
+						}
+					}
+					return 0, false
+				}
+				mulSide, cSide := add.X, add.Y
+				if _, isC := cst(add.X); isC {
+					mulSide, cSide = add.Y, add.X
+				}
+				cv, cok := cst(cSide)
+				if mul, ok := unparen(mulSide).(*ast.BinaryExpr); ok && mul.Op == token.MUL && cok && cv >= 1 {
+					lenSide, kSide := mul.X, mul.Y
+					if _, isC := cst(mul.X); isC {
+						lenSide, kSide = mul.Y, mul.X
+					}
+					kv2, kok := cst(kSide)
+					if lc, ok := unparen(lenSide).(*ast.CallExpr); ok && isBuiltin(in, lc, "len") && len(lc.Args) == 1 && kok && kv2 >= 2 {
+						if fv := fieldOf(in, lc.Args[0]); fv != nil && strings.Contains(strings.ToLower(fv.Name()), "incoming") {
+							good = true
+						}
+					}
+				}
+			}
+			c.Check(good, f, cl, "mailbox of "+T.Obj().Name(), what, "capacity "+exprString(cl.Args[1]))
+			return true
+		})
+	}
+	if n == 0 {
+		c.Missing("node mailboxes", "no mailbox made in the literal of a flow node was found")
+	}
+}
+
+func ruleR178(c *Ctx) {
+	p := c.P
+	what := "the completion monitor reports CeaseFlowTrace when the wait group of the scope's wiring drains. A flow that is counted on a wait group of its own — 'a boundary listener is not a token' — is invisible to it once its event has fired and it IS a token: the instance reports completion while that token, and everything it forks, is still running"
+	n := 0
+	for _, f := range p.Funcs {
+		if f.Body == nil || f.Pkg.PkgPath != pathBpmn {
+			continue
+		}
+		in := info(f)
+		inspectNoLit(f.Body, func(m ast.Node) bool {
+			cl, ok := m.(*ast.CallExpr)
+			if !ok {
+				return true
+			}
+			fn := callee(in, cl)
+			if fn == nil || fn.Name() != "newFlow" || fn.Pkg() == nil || fn.Pkg().Path() != pathBpmn {
+				return true
+			}
+			sig := fn.Type().(*types.Signature)
+			for i := 0; i < sig.Params().Len() && i < len(cl.Args); i++ {
+				pt, isPtr := sig.Params().At(i).Type().(*types.Pointer)
+				if !isPtr || !isNamed(pt.Elem(), "sync", "WaitGroup") {
+					continue
+				}
+				n++
+				arg := unparen(cl.Args[i])
+				if id, isId := arg.(*ast.Ident); isId {
+					if o := objOf(in, id); o != nil && isLocalVar(f.Root(), o) {
+						if defs, _ := localDefs(in, f.Root().Body, o); len(defs) == 1 {
+							arg = unparen(defs[0])
+						}
+					}
+				}
+				fv := fieldOf(in, arg)
+				ok := fv != nil && fv.Name() == "flowWaitGroup"
+				c.Check(ok, f, cl, "wait group of a new flow", what, ifElse(ok, "the flow is counted on "+exprString(cl.Args[i]), exprString(cl.Args[i])+" is not a flowWaitGroup field of the wiring"))
+			}
+			return true
+		})
+	}
+	if n == 0 {
+		c.Missing("newFlow calls", "no call of newFlow with a wait group argument was found")
+	}
+}
+
+// ---- R179 (round 8) ----
+
+func init() {
+	register(&Rule{ID: "R179", Title: "a latch stays set: a boolean that a loop sets under `if !flag` (or with flag || ...) and that is read after the loop is not plainly overwritten in each iteration", Min: 1, Run: ruleR179})
+}
+
+func ruleR179(c *Ctx) {
+	p := c.P
+	what := "`reachedNode` answers 'did ANY of the flows of this trace enter my gateway?'. Overwritten in every iteration it answers 'did the LAST one?': after a trace whose last flow leads elsewhere the tracker keeps its lock and swallows its notifications, and the join never recomputes what it waits for"
+	n := 0
+	for _, f := range p.Funcs {
+		if f.Body == nil || f.Pkg.PkgPath != pathBpmn {
+			continue
+		}
+		in := info(f)
+		inspectNoLit(f.Body, func(m ast.Node) bool {
+			var body *ast.BlockStmt
+			switch x := m.(type) {
+			case *ast.RangeStmt:
+				body = x.Body
+			case *ast.ForStmt:
+				body = x.Body
+			}
+			if body == nil {
+				return true
+			}
+			inspectNoLit(body, func(z ast.Node) bool {
+				as, ok := z.(*ast.AssignStmt)
+				if !ok || as.Tok != token.ASSIGN || len(as.Lhs) != 1 || len(as.Rhs) != 1 {
+					return true
+				}
+				id, ok := unparen(as.Lhs[0]).(*ast.Ident)
+				if !ok {
+					return true
+				}
+				o, _ := objOf(in, id).(*types.Var)
+				if o == nil || o.IsField() || !(o.Pos() < m.Pos()) {
+					return true
+				}
+				if b, isB := o.Type().Underlying().(*types.Basic); !isB || b.Kind() != types.Bool {
+					return true
+				}
+				// only flags whose name or use says "any": read after the loop (in a condition or returned)
+				readAfter := false
+				ast.Inspect(f.Root().Body, func(y ast.Node) bool {
+					if yid, ok := y.(*ast.Ident); ok && yid.Pos() > m.End() && in.Uses[yid] == types.Object(o) {
+						readAfter = true
+					}
+					return true
+				})
+				if !readAfter {
+					return true
+				}
+				// a constant (flag = true / false) is a plain set or reset
+				if tv, has := in.Types[as.Rhs[0]]; has && tv.Value != nil {
+					return true
+				}
+				n++
+				ok2, how := false, ""
+				if mentionsDeep(as.Rhs[0], func(y ast.Node) bool { yid, ok := y.(*ast.Ident); return ok && in.Uses[yid] == types.Object(o) }) {
+					ok2, how = true, "accumulates ("+exprString(as.Rhs[0])+")"
+				}
+				for _, pc := range polarConds(p, as) {
+					e, pos := unparen(pc.cond), pc.positive
+					for {
+						if u, isNot := e.(*ast.UnaryExpr); isNot && u.Op == token.NOT {
+							e, pos = unparen(u.X), !pos
+							continue
+						}
+						break
+					}
+					if cid, isId := e.(*ast.Ident); isId && in.Uses[cid] == types.Object(o) && !pos && regionOf(body).Contains(pc.cond) {
+						ok2, how = true, "assigned only while the flag is still false"
+					}
+				}
+				// the loop is left as soon as the flag is set
+				if !ok2 {
+					leaves := false
+					inspectNoLit(body, func(y ast.Node) bool {
+						if ifs, isIf := y.(*ast.IfStmt); isIf && ifs.Pos() > as.End() {
+							if cid, isId := unparen(ifs.Cond).(*ast.Ident); isId && in.Uses[cid] == types.Object(o) && leavesBlock(ifs.Body) {
+								leaves = true
+							}
+						}
+						return true
+					})
+					if leaves {
+						ok2, how = true, "the loop is left once the flag is set"
+					}
+				}
+				if !ok2 {
+					how = "overwritten with " + exprString(as.Rhs[0]) + " in every iteration; read after the loop"
+				}
+				c.Check(ok2, f, as, "latch "+id.Name, what, how)
+				return true
+			})
+			return true
+		})
+	}
+	if n == 0 {
+		c.Missing("latches", "no boolean that a loop assigns and the code after the loop reads was found")
+	}
+}
+
+// ---- R180, R181 (round 8) ----
+
+func init() {
+	register(&Rule{ID: "R180", Title: "a node's loop does not wait for an answer: the mailbox loop of a node receives from a token's or an activity's reply channel only inside a goroutine it launches for that request, never in the loop itself", Min: 1, Run: ruleR180})
+	register(&Rule{ID: "R181", Title: "no hand-made XML: the expression engines build the variable document with an encoder, never by concatenating markup literals with values (text would go in unescaped)", Min: 0, Run: ruleR181})
+}
+
+func ruleR180(c *Ctx) {
+	p := c.P
+	what := "several tokens can be inside one activity at the same time; each gets its own request (TaskTrace) and is answered independently. If the harness's loop itself waits for the activity's reply, the second token's request sits in the mailbox until the first one was answered: an enabled activity instance is not requested, and a driver that answers the later request first waits for ever"
+	n := 0
+	for _, f := range p.Funcs {
+		if f.Body == nil || f.Pkg.PkgPath != pathBpmn || f.Obj == nil || f.Obj.Name() != "run" {
+			continue
+		}
+		in := info(f)
+		// receives on reply channels in the whole declared function, with the literal nesting they occur in
+		var visit func(h *FuncInfo, launched bool)
+		visit = func(h *FuncInfo, launched bool) {
+			inspectNoLit(h.Body, func(m ast.Node) bool {
+				var ch ast.Expr
+				switch x := m.(type) {
+				case *ast.UnaryExpr:
+					if x.Op == token.ARROW {
+						ch = x.X
+					}
+				}
+				if ch == nil || !isReplyChan(in.TypeOf(ch)) {
+					return true
+				}
+				n++
+				c.Check(launched, h, m, "receive of an answer "+exprString(ch)+" in "+f.QName(), what, ifElse(launched, "inside a goroutine launched for the request", "in the mailbox loop itself: the loop serves nothing else until the answer arrives"))
+				return true
+			})
+			for _, l := range h.Lits {
+				isGo := false
+				if cl, ok := p.Parent(l.Lit).(*ast.CallExpr); ok {
+					if _, ok := p.Parent(cl).(*ast.GoStmt); ok {
+						isGo = true
+					}
+				}
+				visit(l, launched || isGo)
+			}
+		}
+		visit(f, false)
+	}
+	if n == 0 {
+		c.Missing("answer relays", "no receive from a reply channel in a node's run method was found")
+	}
+}
+
+func ruleR181(c *Ctx) {
+	p := c.P
+	what := "a variable whose text contains & or < makes a hand-concatenated document malformed: every XPath condition of the instance then fails to evaluate, whether or not it mentions that variable, and the gateway takes the default flow (or none)"
+	for _, f := range p.Funcs {
+		if f.Body == nil || !strings.HasPrefix(f.Pkg.PkgPath, pathExpr) {
+			continue
+		}
+		in := info(f)
+		isMarkup := func(e ast.Expr) bool {
+			tv, ok := in.Types[e]
+			if !ok || tv.Value == nil {
+				return false
+			}
+			s := tv.Value.String()
+			return strings.HasPrefix(s, `"<`) || strings.HasSuffix(s, `>"`)
+		}
+		inspectNoLit(f.Body, func(m ast.Node) bool {
+			switch x := m.(type) {
+			case *ast.BinaryExpr:
+				if x.Op != token.ADD {
+					return true
+				}
+				if par, ok := p.Parent(x).(*ast.BinaryExpr); ok && par.Op == token.ADD {
+					// reported once, at the innermost concatenation that pairs markup with a value
+					if isMarkup(x.X) == isMarkup(x.Y) {
+						return true
+					}
+				}
+				l, r := isMarkup(x.X), isMarkup(x.Y)
+				if l != r { // markup + something that is not a constant markup
+					other := x.Y
+					if r {
+						other = x.X
+					}
+					if tv, ok := in.Types[other]; ok && tv.Value == nil {
+						c.Bad(f, x, "markup concatenated with a value: "+exprString(x), what, exprString(other)+" goes into the document without escaping")
+					}
+				}
+			}
+			return true
+		})
+	}
+}
